@@ -263,6 +263,14 @@ func (m *memWriter) Write(p []byte) (int, error) {
 func (m *memWriter) Close() error                        { return nil }
 func (m *memWriter) SetWriteTimeout(time.Duration) error { return nil }
 func (m *memWriter) String() string                      { m.mu.Lock(); defer m.mu.Unlock(); return m.buf.String() }
+func (m *memWriter) Reset()                              { m.mu.Lock(); defer m.mu.Unlock(); m.buf.Reset() }
+
+// nullWriter discards datagrams (registries whose backend contents are not looked at).
+type nullWriter struct{}
+
+func (nullWriter) Write(p []byte) (int, error)         { return len(p), nil }
+func (nullWriter) Close() error                        { return nil }
+func (nullWriter) SetWriteTimeout(time.Duration) error { return nil }
 
 func c20Bundled(c *Ctx) {
 	name := "C20/bundled-registries"
@@ -438,8 +446,7 @@ func newPollReg(kind string) (pollReg, func()) {
 		if err != nil {
 			panic(err)
 		}
-		sharedDD.Flush()
-		sharedOff = len(sharedW.String())
+		pollBackendMark()
 		pollBackend = func(id string) (float64, int, bool) {
 			// datagrams written since the previous look: "p.<id>:<value>|g"
 			sharedDD.Flush()
@@ -469,7 +476,8 @@ var pollBackend func(id string) (val float64, writes int, ok bool)
 func pollBackendMark() {
 	if sharedDD != nil {
 		sharedDD.Flush()
-		sharedOff = len(sharedW.String())
+		sharedW.Reset() // (the writer is shared by all executions of the process: keep it small)
+		sharedOff = 0
 	}
 }
 
